@@ -13,6 +13,30 @@ NOTE = ('Trusted base: rustc nightly MIR/HIR of the type-checked program at -Zmi
         'check, not a proof of the behavioural property; see coverage.not_decided in the evidence.')
 
 CLAIMS = {
+    'C03': dict(
+        technique='per-feature hasher/digest-range tables over the 4 hash build configurations (MIR callee types and constant '
+                  'ranges), Cargo manifest feature wiring (tomllib), guard extraction + literal tables for layout codes, HIR table '
+                  'agreement parser<->verifier (layout names, column counts), header push order under stone5/stone6',
+        text='Decides that each build configuration selects the hash / digest bytes / PoW hash its feature names, that features '
+             'are wired consistently across crates, that every layout rejects a foreign layout code and the parser emits the '
+             'matching code and constants, and the Stone 5/6 digest preimage order. That the shipped proofs verify is an '
+             'execution and is not decided.',
+        ref='4 C03'),
+    'C04': dict(
+        technique='must-pass-through + guard extraction (root comparison), Option result-discipline on every lookup of the Merkle '
+                  'walk, hasher tables over the 4 hash configurations, ordered buffer events (preimage), def-use expression '
+                  'reconstruction of the index arithmetic',
+        text='Decides the binding comparison, that a missing node yields Err, the four hash variants and the preimage order, the '
+             'friendly/masked selection and the parent/pair/stop index arithmetic. Completeness and binding of the queue walk '
+             'for all shapes is not decided.',
+        ref='4 C04'),
+    'C05': dict(
+        technique='guard extraction (length guard), def-use expression reconstruction (Montgomery conversion, row slices, flag), '
+                  'literal table (2^256 mod p), hasher tables over the 4 hash configurations, checked delegation',
+        text='Decides the length guard, that every hashed cell is Montgomery-converted with the right constant, the row slice '
+             'bounds, single-column bypass, friendly flag (height+1) and hash variants, and that the vector verdict is the '
+             'table verdict. Hash binding is not decided.',
+        ref='4 C05'),
     'C19': dict(
         technique='cast inventory and panic-site inventory over the MIR of the parser and CLI-conversion shim crates; Option '
                   'result-discipline for the repo\'s fallible parsers; field-flow coverage source->destination of transform_to; '
